@@ -9,9 +9,10 @@ import (
 	"strings"
 
 	"github.com/nspcc-dev/neo-go/pkg/core/block"
+	"github.com/nspcc-dev/neo-go/pkg/core/storage"
 	"github.com/nspcc-dev/neo-go/pkg/core/transaction"
-	"github.com/nspcc-dev/neo-go/pkg/smartcontract"
 	"github.com/nspcc-dev/neo-go/pkg/crypto/hash"
+	"github.com/nspcc-dev/neo-go/pkg/smartcontract"
 	"github.com/nspcc-dev/neo-go/pkg/util"
 	ck "verifharness/chainkit"
 	"verifharness/vt"
@@ -117,11 +118,29 @@ func hdrKeys(h util.Uint256) map[string]bool {
 	return map[string]bool{"01" + hex.EncodeToString(h.BytesBE()): true, "c1": true}
 }
 
+// rawPrefixes are all key prefixes the node writes under (storage.KeyPrefix constants). MemoryStore.Seek walks the
+// whole map per call, so the dump asks for these instead of all 256 first bytes (ck.RawDump).
+var rawPrefixes = []storage.KeyPrefix{storage.DataExecutable, storage.DataMPT, storage.DataMPTAux, storage.STStorage, storage.STTempStorage,
+	storage.STNEP11Transfers, storage.STNEP17Transfers, storage.STTokenTransferInfo, storage.IXHeaderHashList, storage.SYSCurrentBlock,
+	storage.SYSCurrentHeader, storage.SYSStateSyncCurrentBlockHeight, storage.SYSStateSyncPoint, storage.SYSStateChangeStage,
+	storage.SYSStateSyncCheckpoint, storage.SYSVersion}
+
+func rawDump(st storage.Store) map[string]string {
+	m := map[string]string{}
+	for _, p := range rawPrefixes {
+		st.Seek(storage.SeekRange{Prefix: []byte{byte(p)}}, func(k, v []byte) bool {
+			m[hex.EncodeToString(k)] = hex.EncodeToString(v)
+			return true
+		})
+	}
+	return m
+}
+
 func flushRaw(n *ck.Node) (map[string]string, error) {
 	if err := n.BC.VerifPersist(); err != nil {
 		return nil, err
 	}
-	m := ck.RawDump(n.Base())
+	m := rawDump(n.Base())
 	// STTokenTransferInfo records (node-local bookkeeping, prefix 0x74) serialise a Go map in iteration order:
 	// compare their content, not the order (26 fixed bytes, a count < 0xfd, then 8-byte entries).
 	for k, v := range m {
@@ -141,12 +160,32 @@ func flushRaw(n *ck.Node) (map[string]string, error) {
 
 // startNode brings a fresh node to the state the submission happens on.
 func (w *world) startNode(ha int, withPool bool) (*ck.Node, error) {
-	n, err := ck.NewNode(w.c.Chain, w.c.Node, nil)
-	if err != nil {
-		return nil, fmt.Errorf("cannot start node: %v", err)
+	var n *ck.Node
+	skip := 0
+	if w.c.Fresh {
+		var err error
+		if n, err = ck.NewNode(w.c.Chain, w.c.Node, nil); err != nil {
+			return nil, fmt.Errorf("cannot start node: %v", err)
+		}
+	} else {
+		s, err := bootSnapshot(w.c.Chain, w.c.Node)
+		if err != nil {
+			return nil, err
+		}
+		if n, err = ck.NewNodeOnStore(w.c.Chain, w.c.Node, s.clone()); err != nil {
+			return nil, fmt.Errorf("cannot start node on the post-bootstrap backend: %v", err)
+		}
+		skip = len(s.boot)
+		if n.BC.BlockHeight() != uint32(skip) {
+			n.Close()
+			return nil, fmt.Errorf("harness: node on the post-bootstrap backend is at height %d", n.BC.BlockHeight())
+		}
 	}
 	fail := func(err error) (*ck.Node, error) { n.Close(); return nil, err }
 	for i, raw := range w.hist {
+		if i < skip {
+			continue
+		}
 		blk, err := ck.DecodeBlock(raw, w.srih)
 		if err != nil {
 			return fail(fmt.Errorf("history block %d does not decode: %v", i+1, err))
@@ -243,6 +282,16 @@ func (w *world) twin(ha int) (*twinSnap, error) {
 // ---- the check -----------------------------------------------------------------------------------------
 
 func known(key string) bool { return key != "" && vt.Known(key) }
+
+var reconfirmed = map[string]bool{}
+
+// reconfirm prints the KNOWN-FINDING line once per process and key.
+func reconfirm(key, what string) {
+	if !reconfirmed[key] {
+		reconfirmed[key] = true
+		vt.KnownFinding(key, what)
+	}
+}
 
 func checkCase(c Case, o *vt.Obs) error {
 	w, err := buildWorld(c)
@@ -429,7 +478,7 @@ func (w *world) runOne(e *entry, cr Corruption, via string, ha int, o *vt.Obs) e
 		return fmt.Errorf("%s: ACCEPTED a block the property rejects", where)
 	}
 	if known(m.known) {
-		vt.KnownFinding(m.known, "reconfirmed: "+e.name+" accepted")
+		reconfirm(m.known, "reconfirmed: "+e.name+" accepted")
 	}
 	o.Labelf("%s/accepted", e.name)
 	if n.BC.HeaderHeight() < w.N+1 || n.BC.GetHeaderHash(w.N+1) != mh {
